@@ -68,6 +68,8 @@ type Exec struct {
 	repoPkgs      map[string]bool
 	havocN        int
 	globals       map[string]func(*State) *Value
+	lenientLoops  bool // drop loop clauses that do not fit the loop they are attached to (check.go)
+	nonnilGlobals map[string]bool
 	useContracts  bool
 	specAxioms    []*Term
 	globalRefs    map[string]*Term
@@ -1095,14 +1097,21 @@ func (x *Exec) evalVariant(fr *Frame, li *loopInfo, c Clause, st *State) *Term {
 	vars := map[string]*Value{}
 	env := &SpecEnv{x: x, vars: vars, cur: st, old: fr.entry, pkg: x.pkgOfFn(fr.fn), fr: fr, li: li, at: li.header}
 	var out *Term
-	x.guardedEval(func() *Term {
-		v := env.eval(c.E)
-		if v.K != KScalar || v.Term.Sort.Kind != SInt {
-			specFail("decreases needs an integer expression")
-		}
-		out = v.Term
-		return True
-	}, x.contractFor(fr.fn), c)
+	f := func() *Term {
+		return x.guardedEval(func() *Term {
+			v := env.eval(c.E)
+			if v.K != KScalar || v.Term.Sort.Kind != SInt {
+				specFail("decreases needs an integer expression")
+			}
+			out = v.Term
+			return True
+		}, x.contractFor(fr.fn), c)
+	}
+	if x.lenientLoops {
+		x.lenientLoopClause(f)
+	} else {
+		f()
+	}
 	return out
 }
 
@@ -1177,7 +1186,14 @@ func (x *Exec) execBlock(fr *Frame, b *ssa.BasicBlock, st *State) {
 			if c := x.contractFor(fr.fn); c != nil && li.headState != nil {
 				for _, sc := range c.Steps[li.ordinal] {
 					env := &SpecEnv{x: x, vars: map[string]*Value{}, cur: es, old: li.headState, pkg: x.pkgOfFn(fr.fn), fr: fr, li: li, at: li.header, stepOld: true}
-					t := x.guardedEval(func() *Term { return env.evalBool(sc.E) }, c, sc)
+					sc := sc
+					f := func() *Term { return x.guardedEval(func() *Term { return env.evalBool(sc.E) }, c, sc) }
+					var t *Term
+					if x.lenientLoops {
+						t = x.lenientLoopClause(f)
+					} else {
+						t = f()
+					}
 					x.oblige(fr, es, "inv.preserved", fmt.Sprintf("loop%d", li.ordinal), "step:"+labelOr(sc.Label, ""), t, s.Instrs[0].Pos(), sc.Src)
 				}
 			}
